@@ -1,5 +1,6 @@
 /-
-  C14 model — per-object operator memory (`noticed_by_listing`, `fully_handled_once`) + cause
+  C14 model — per-object operator memory (`noticed_by_listing`, `fully_handled_once`,
+  `resumed_handlers`) + cause
   detection (C05) + the handler gate + one handling pass (C02), composed as the code composes them
   in `process_resource_event` / `_detect_causes` / `process_changing_cause`.
   Core Lean only.
@@ -13,6 +14,8 @@ open Kopf
 structure Mem where
   noticed : Bool          -- created while the object was seen in a listing (event type None)
   fullyHandled : Bool     -- `fully_handled_once`
+  resumed : List C02.Id := []   -- `resumed_handlers`: resuming handlers that reached a final outcome for
+                                -- this object in this process while the cycle is still open (/repo 6c4463d)
   deriving DecidableEq, Repr
 
 /-- A registered changing handler: id + what the gate reads. -/
@@ -54,13 +57,18 @@ def inOf (mem : Mem) (e : Event) : C05.In :=
 
 def causeOf (mem : Mem) (e : Event) : C05.Cause := C05.detect (inOf mem e)
 
-def selectedOf (decls : List Decl) (c : C05.Cause) (e : Event) : List C02.Id :=
-  (decls.filter (fun d => C05.gate d.gate c && e.matchF d.id)).map (·.id)
+/-- `get_handlers(cause)` minus the resuming handlers already finished in this process. -/
+def selectedOf (decls : List Decl) (c : C05.Cause) (e : Event) (resumed : List C02.Id) : List C02.Id :=
+  (decls.filter (fun d => C05.gate d.gate c && e.matchF d.id &&
+                          !(d.gate.initial && resumed.contains d.id))).map (·.id)
 
 def cfgOf (decls : List Decl) (mem : Mem) (e : Event) : C02.Cfg :=
   let c := causeOf mem e
-  { owned := decls.map (·.id), selected := selectedOf decls c e, limits := e.limits,
+  { owned := decls.map (·.id), selected := selectedOf decls c e mem.resumed, limits := e.limits,
     reason := reasonStr c.reason, lifecycle := e.lifecycle }
+
+/-- some registration under this id is a resuming one (`handler.initial`) -/
+def isInitial (decls : List Decl) (i : C02.Id) : Bool := decls.any (fun d => d.id == i && d.gate.initial)
 
 structure StepResult where
   mem : Option Mem            -- none after DELETED (`memories.forget`)
@@ -75,7 +83,9 @@ def step (decls : List Decl) (m : Option Mem) (P : C02.Store) (e : Event) : Step
     { mem := if e.deleted then none else some mem, P := P, invoked := [], closed := false }
   else
     let r := C02.cycle (cfgOf decls mem e) P e.now e.now1 e.exec
-    let mem' : Mem := { mem with fullyHandled := mem.fullyHandled || r.closed }
+    let newly := (C02.cycleFinals (cfgOf decls mem e) P e.now e.exec).filter (isInitial decls)
+    let mem' : Mem := { mem with fullyHandled := mem.fullyHandled || r.closed,
+                                 resumed := if r.closed then [] else mem.resumed ++ newly }
     { mem := if e.deleted then none else some mem', P := r.P', invoked := r.invoked, closed := r.closed }
 
 /-- A whole history of events of one object within one operator process. -/
@@ -84,5 +94,14 @@ def run (decls : List Decl) : Option Mem → C02.Store → List Event → List (
   | m, P, e :: rest =>
       let r := step decls m P e
       r.invoked :: run decls r.mem r.P rest
+
+/-- The same history, but every event carries its OWN view of the stored records — whatever body the
+    watch delivered: a stale one processed after the consistency timeout, one without a patch that was
+    lost, …; nothing relates it to what the previous pass wrote. Only the operator's memory is threaded. -/
+def runViews (decls : List Decl) : Option Mem → List (Event × C02.Store) → List (List (C02.Id × Nat))
+  | _, [] => []
+  | m, (e, P) :: rest =>
+      let r := step decls m P e
+      r.invoked :: runViews decls r.mem rest
 
 end Kopf.C14
